@@ -8,7 +8,8 @@ package requestor
 //
 //	case <id> dag=<seed>:<maxblocks>
 //	put <cid> …          requestor's store            remote <cids|->    responder's store
-//	req <userskip>       run the request to completion -> one summary line
+//	req <userskip> [dns=<cids>] [key=<k>]   run the request (optionally with do-not-send-cids /
+//	                     dedup-by-key extensions) to completion -> one summary line
 
 import (
 	"bufio"
@@ -32,6 +33,8 @@ import (
 	"github.com/libp2p/go-libp2p/core/peer"
 
 	"github.com/ipfs/go-graphsync"
+	"github.com/ipfs/go-graphsync/cidset"
+	"github.com/ipfs/go-graphsync/dedupkey"
 	"github.com/ipfs/go-graphsync/donotsendfirstblocks"
 	gsimpl "github.com/ipfs/go-graphsync/impl"
 	gsmsg "github.com/ipfs/go-graphsync/message"
@@ -142,7 +145,7 @@ func (ms *memStore) linkSystem() linking.LinkSystem {
 var reqPeer = peer.ID("peer-requestor")
 
 // runExchange performs one request between two fresh nodes and returns what was observed.
-func runExchange(w *World, loc, rem []int, user int64) (Events, []wireRec, map[cid.Cid][]byte, []string) {
+func runExchange(w *World, loc, rem []int, user int64, dns []int, key string) (Events, []wireRec, map[cid.Cid][]byte, []string) {
 	ctx, cancel := context.WithCancel(context.Background())
 	var mu sync.Mutex
 	var log []wireRec
@@ -169,6 +172,17 @@ func runExchange(w *World, loc, rem []int, user int64) (Events, []wireRec, map[c
 	var exts []graphsync.ExtensionData
 	if user > 0 {
 		exts = append(exts, graphsync.ExtensionData{Name: graphsync.ExtensionsDoNotSendFirstBlocks, Data: donotsendfirstblocks.EncodeDoNotSendFirstBlocks(user)})
+	}
+	if len(dns) > 0 {
+		set := cid.NewSet()
+		for _, i := range dns {
+			set.Add(w.D.Cids[i])
+		}
+		exts = append(exts, graphsync.ExtensionData{Name: graphsync.ExtensionDoNotSendCIDs, Data: cidset.EncodeCidSet(set)})
+	}
+	if key != "" {
+		kd, _ := dedupkey.EncodeDedupKey(key)
+		exts = append(exts, graphsync.ExtensionData{Name: graphsync.ExtensionDeDupByKey, Data: kd})
 	}
 	var ev Events
 	requestor.RegisterIncomingBlockHook(func(p peer.ID, rd graphsync.ResponseData, bd graphsync.BlockData, ha graphsync.IncomingBlockHookActions) {
@@ -294,13 +308,34 @@ func runExchangeCase(c reg.Case, out *reg.Out) {
 			}
 			out.Line("ok")
 		case "req":
+			// req <userskip> [dns=<cids the requestor declares to have: do-not-send-cids>] [key=<dedup key>]
 			us, err := strconv.ParseInt(opArg(op, 1), 10, 64)
-			if len(op) != 2 || err != nil || us < 0 || done {
+			good := len(op) >= 2 && len(op) <= 4 && err == nil && us >= 0 && !done
+			var dns []int
+			key := ""
+			for _, t := range op[min(2, len(op)):] {
+				switch {
+				case strings.HasPrefix(t, "dns="):
+					var ok2 bool
+					dns, ok2 = ParseInts(t[4:])
+					good = good && ok2
+				case strings.HasPrefix(t, "key="):
+					key = t[4:]
+				default:
+					good = false
+				}
+			}
+			for _, n := range dns {
+				if n < 0 || n >= len(w.D.Cids) {
+					good = false
+				}
+			}
+			if !good {
 				out.Line("bad-op")
 				continue
 			}
 			done = true
-			ev, wire, store, nerrs := runExchange(w, loc, rem, us)
+			ev, wire, store, nerrs := runExchange(w, loc, rem, us, dns, key)
 			or := newOracle(out, w)
 			or.realResponder = true
 			for _, n := range loc {
@@ -312,6 +347,24 @@ func runExchangeCase(c reg.Case, out *reg.Out) {
 			s := &Sys{W: w, store: store}
 			or.finish(s)
 			judgeWire(out, w, or, wire, nerrs)
+			// C24: a block the requestor listed in do-not-send-cids is never transmitted
+			if len(dns) > 0 {
+				out.Cov("c24.dns")
+				told := map[cid.Cid]bool{}
+				for _, n := range dns {
+					told[w.D.Cids[n]] = true
+				}
+				for _, r := range wire {
+					if r.from == reqPeer {
+						continue
+					}
+					for _, b := range r.msg.Blocks() {
+						if told[b.Cid()] {
+							out.Fail("resend-donotsend", "responder transmitted block %s although the request lists it in do-not-send-cids (dedup key %q)", w.cidName(b.Cid()), key)
+						}
+					}
+				}
+			}
 			nb := 0
 			for _, r := range wire {
 				if r.from != reqPeer {
@@ -405,7 +458,7 @@ func (o *oracle) lacksPrefix() bool {
 
 // ---------------------------------------------------------------- generator
 
-func emitExchangeCase(wr *bufio.Writer, id string, seed int64, mb int, w *World, loc, rem []int, user int) {
+func emitExchangeCase(wr *bufio.Writer, id string, seed int64, mb int, w *World, loc, rem []int, user int, extra ...string) {
 	fmt.Fprintf(wr, "case %s dag=%d:%d\n", id, seed, mb)
 	fmt.Fprintln(wr, w.LTLine)
 	fmt.Fprintln(wr, "remote", FmtInts(rem))
@@ -416,7 +469,7 @@ func emitExchangeCase(wr *bufio.Writer, id string, seed int64, mb int, w *World,
 		}
 		fmt.Fprintln(wr, "put", strings.Join(ss, " "))
 	}
-	fmt.Fprintln(wr, "req", user)
+	fmt.Fprintln(wr, strings.TrimSpace(fmt.Sprintf("req %d %s", user, strings.Join(extra, " "))))
 }
 
 func pickWorld(r *rand.Rand, mb int, maxLoads int) (*World, int64) {
@@ -505,7 +558,23 @@ func GenExchange(seed int64, n int, tier string, wr *bufio.Writer) {
 		if r.Intn(8) == 0 {
 			user = r.Intn(len(w.LT.Loads) + 2)
 		}
-		emitExchangeCase(wr, fmt.Sprintf("x%d", i), ws, mb, w, loc, rem, user)
+		var extra []string
+		if len(loc) > 0 && r.Intn(6) == 0 {
+			// the requestor declares some blocks it holds (do-not-send-cids), with or without a dedup key
+			var dns []int
+			for _, k := range loc {
+				if r.Intn(2) == 0 {
+					dns = append(dns, k)
+				}
+			}
+			if len(dns) > 0 {
+				extra = append(extra, "dns="+FmtInts(dns))
+			}
+			if r.Intn(2) == 0 {
+				extra = append(extra, "key=k1")
+			}
+		}
+		emitExchangeCase(wr, fmt.Sprintf("x%d", i), ws, mb, w, loc, rem, user, extra...)
 	}
 	if tier == "thorough" {
 		// every 2-colouring of the blocks of small DAGs
